@@ -131,6 +131,7 @@ type op struct {
 	Block bool   // add: the job blocks until released
 	I     int    // remove/release: entry index
 	Step  string // next | next-1ns | half | jump2 | jump5 | 1s | 7s
+	Run   bool   // start: through the blocking Run() (on a goroutine of its own) instead of Start()
 }
 
 type cronCase struct {
@@ -147,6 +148,10 @@ func opStr(o op) string {
 		return fmt.Sprintf("%s(e%d)", o.Kind, o.I)
 	case "step":
 		return "step(" + o.Step + ")"
+	case "start":
+		if o.Run {
+			return "start(go Run())"
+		}
 	}
 	return o.Kind
 }
@@ -179,7 +184,7 @@ type start struct {
 }
 
 type outcome struct {
-	stopRacedWake                                                     bool
+	stopRacedWake, viaRun                                             bool
 	starts                                                            int
 	addWhileRunning, removeWhileRunning, jump, blockedAtStop, restart bool
 	racedInstant                                                      bool // an API call was issued at the very instant an activation was due
@@ -366,7 +371,13 @@ func runCron(t *testing.T, c cronCase) (out outcome, err error) {
 				if !running && everStopped {
 					out.restart = true
 				}
-				cr.Start()
+				if o.Run {
+					errs.Go(cr.Run) // returns at once if already running, else when the scheduler is stopped
+					synctest.Wait()
+					out.viaRun = true
+				} else {
+					cr.Start()
+				}
 				if !running {
 					running = true
 					for _, e := range entries {
@@ -539,7 +550,7 @@ func genCase(rt *rapid.T) cronCase {
 		case k <= 6:
 			c.Ops = append(c.Ops, op{Kind: "remove", I: rapid.IntRange(0, 5).Draw(rt, "i")})
 		case k <= 8:
-			c.Ops = append(c.Ops, op{Kind: "start"})
+			c.Ops = append(c.Ops, op{Kind: "start", Run: rapid.IntRange(0, 2).Draw(rt, "viaRun") == 0})
 		case k == 9:
 			c.Ops = append(c.Ops, op{Kind: rapid.SampledFrom([]string{"stop", "stepstop"}).Draw(rt, "stopKind")})
 		case k == 10:
@@ -556,7 +567,7 @@ func genCase(rt *rapid.T) cronCase {
 func record(sec *vk.Section, c cronCase, out outcome) {
 	var cls []string
 	for name, b := range map[string]bool{"add-while-running": out.addWhileRunning, "remove-while-running": out.removeWhileRunning, "jump-over-several-activations": out.jump,
-		"blocked-job-at-stop": out.blockedAtStop, "restart": out.restart, "api-call-at-activation-instant": out.racedInstant, "stop-racing-a-wake-up": out.stopRacedWake} {
+		"blocked-job-at-stop": out.blockedAtStop, "restart": out.restart, "started-through-Run": out.viaRun, "api-call-at-activation-instant": out.racedInstant, "stop-racing-a-wake-up": out.stopRacedWake} {
 		if b {
 			cls = append(cls, name)
 		}
